@@ -155,6 +155,7 @@ type Sim struct {
 	debugLog   []string
 	taskSeq    int
 	timerSeq   int64
+	dense      map[int64]int
 	tasks      sync.WaitGroup
 }
 
@@ -295,6 +296,21 @@ func (s *Sim) Fault(kind string) {
 	s.mu.Lock()
 	s.Faults[kind]++
 	s.mu.Unlock()
+}
+
+// denseID numbers goroutines in the order the scheduler first picked them (debug log
+// only; raw goroutine ids differ between runs whenever the runtime starts a goroutine
+// of its own in between).
+func (s *Sim) denseID(g int64) int {
+	if s.dense == nil {
+		s.dense = map[int64]int{}
+	}
+	id, ok := s.dense[g]
+	if !ok {
+		id = len(s.dense) + 1
+		s.dense[g] = id
+	}
+	return id
 }
 
 // Step returns the global decision counter (used to stamp history events).
@@ -491,7 +507,7 @@ func (s *Sim) loop() {
 			s.mix(uint64(idx), uint64(n))
 			s.schedHash = (s.schedHash ^ uint64(idx*131+n)) * 1099511628211
 			if s.Cfg.Debug {
-				s.debugLog = append(s.debugLog, fmt.Sprintf("[step %d t=%v] pick %d/%d g=%d", s.Steps, time.Since(s.start), idx, n, w.g-s.firstGoid))
+				s.debugLog = append(s.debugLog, fmt.Sprintf("[step %d t=%v] pick %d/%d g=%d", s.Steps, time.Since(s.start), idx, n, s.denseID(w.g)))
 			}
 			s.mu.Unlock()
 			w.ch <- struct{}{}
